@@ -68,6 +68,11 @@ import BlocV.DrvC11
 import BlocV.DrvC11S
 -- END C11
 
+-- BEGIN C02R3
+import BlocV.Model.Safety
+import BlocV.KF.C02
+-- END C02R3
+
 open BlocV BlocV.Proto
 
 def specIRes : Spec.IRes → String
@@ -165,6 +170,52 @@ def handle (words : List String) : String :=
   if let some r := DrvC18.handle words then r else
   -- END C18
   match words with
+  -- BEGIN C02R3
+  | ["opk", name, v1, v2, st1, st2] =>
+    -- as `op` with static operand types, plus the known-finding region of C02 the case lies in (KF/C02.lean `c02OpGap`: a
+    -- function of operator, static operand types, run-time operand types)
+    match binOpOfName name, parseVal v1, parseVal v2, parseTyStr st1, parseTyStr st2 with
+    | some op, some a, some b, some t1, some t2 =>
+      if !acceptBin op t1 t2 then "model=perr " ++ toString Gen.EXC_PARSE_TYPE_MISMATCH_S
+      else "model=" ++ resStr (evalBin op a b) ++
+        (if KF.c02OpGap op t1 t2 a.type b.type then " kf=C02.static_vs_runtime.op." ++ name else "") ++
+        " note=" ++ tyStrSimple (typeBin op t1 t2)
+    | _, _, _, _, _ => "bad-op"
+  | ["gmarg", name, st, sa] =>
+    -- value argument of put / insert / concat on a level-0 receiver, from the regenerated Gen/MemberSigs.lean (`*_arg0`), and the
+    -- hand model's verdict on the same call
+    match Member.ofName name, parseTyStr st, parseTyStr sa with
+    | some mb, some t, some a =>
+      "model=gen arg=" ++ (match GenEval.arg0Ok (GenEval.arg0Of mb) t a with | some true => "ok" | some false => "argtype" | none => "nocase")
+        ++ " harg=" ++ (match acceptMember mb t ((GenEval.lead mb) ++ [a]) false with | none => "ok" | some c => toString c)
+    | _, _, _ => "bad-op"
+  | "sflag" :: toks =>
+    -- the run-time safety-flag machine of Model/Safety.lean driven by the loop events of a scenario (vlib/props/c02.py
+    -- `safety_scenarios`): F:v / A:v enter a for / forall over v, W while, U one frame closed (normal end, break),
+    -- T return (every open loop closes, rest of the unit skipped), X runtime error (onRuntimeError, rest skipped),
+    -- R:v run-time probe (`v = h()`, h declared integer returning a string): TYPE_MISMATCH iff the flag is set,
+    -- S:v static probe at the head of a unit (`v = "abc"`): rejected iff set, `;` end of unit. Answers the flag seen by every
+    -- probe and, per unit, the flags of $K I J E afterwards.
+    let names := ["$K", "I", "J", "E"]
+    let bits := fun (s : Safety.FlagSt) => String.join (names.map fun n => if s.flags n then "1" else "0")
+    let r := toks.foldl (fun (acc : Safety.FlagSt × Bool × String × List String) tok =>
+      let (s, skip, ps, us) := acc
+      if tok == ";" then (s, false, ps, us ++ [bits s])
+      else if skip then acc
+      else match tok.splitOn ":" with
+        | ["F", n] => (Safety.step s (.enterFor n), false, ps, us)
+        | ["A", n] =>
+          if Safety.forallRefused s n then (Safety.step s (.error 0), true, ps ++ "r", us)
+          else (Safety.step s (.enterForall n), false, ps, us)
+        | ["W"] => (Safety.step s .enterWhile, false, ps, us)
+        | ["U"] => (Safety.step s .unstack, false, ps, us)
+        | ["T"] => (Safety.run s (List.replicate s.ctl.length .unstack), true, ps, us)
+        | ["X"] => (Safety.step s (.error 0), true, ps, us)
+        | ["R", n] => if s.flags n then (Safety.step s (.error 0), true, ps ++ "1", us) else (s, false, ps ++ "0", us)
+        | ["S", n] => if s.flags n then (s, true, ps ++ "1", us) else (s, false, ps ++ "0", us)
+        | _ => (s, skip, ps ++ "?", us)) (Safety.unitStart, false, "", [])
+    "model=p=" ++ r.2.2.1 ++ " u=" ++ ",".intercalate r.2.2.2
+  -- END C02R3
   -- BEGIN INT
   | ["isteps", fuel, hex] =>
     -- the statements of a program typed one by one at the interactive prompt (Model/Interp.lean `runInteractive`); answers the
